@@ -11,6 +11,7 @@ import Driver.C11
 import Driver.C14
 import Driver.C06
 import Driver.C15
+import Driver.C16
 import Driver.C17
 import Driver.C18
 import Driver.C19
@@ -34,6 +35,7 @@ def dispatch (j : Json) : Json :=
   | "C11" => Driver.C11.handle j
   | "C14" => Driver.C14.handle j
   | "C15" => Driver.C15.handle j
+  | "C16" => Driver.C16.handle j
   | "C17" => Driver.C17.handle j
   | "C18" => Driver.C18.handle j
   | "C19" => Driver.C19.handle j
